@@ -642,4 +642,6 @@ def main(pid, tier, replay=None):
         # above: the one a clean build generates (shared with C18: lib/p_ct.py, TraceCT.tla)
         from . import p_ct
         p_ct.run(res, pid, tier)
+        # ... and the deprecated entry point generates the module build() generates
+        p_ct.deprecated_entry(res, pid)
     return res.finish()
